@@ -28,5 +28,5 @@ Definition go_lib_format_number
   : nat -> f64 -> string -> option (list (string * string)) -> lres string :=
   lib_format_number format_float_fixed.
 
-(* fuel that is enough for every finite value > 0 (see Proofs/LibFormatNumberProofs.v) *)
+(* fuel that is enough for every double (701 suffices, see Proofs/LibFormatNumberProofs.v) *)
 Definition format_number_fuel : nat := 1500.
